@@ -82,16 +82,9 @@ fn total_v2_read_buf() {
     }
 }
 
-// @harness name=total_v2_new kind=bounded tiers=thorough domain="all byte strings of length 0..=12" bound="input length <= 12" target="DecoderV2::new (feature flag + nine length-prefixed sections + StringDecoder::new)" timeout=1200
-#[kani::proof]
-#[kani::unwind(22)]
-fn total_v2_new() {
-    let buf: [u8; 12] = kani::any();
-    let input = any_prefix(&buf);
-    let _ = DecoderV2::new(Cursor::new(input)).map(|_| ());
-}
+// (retired: the bounded harness total_v2_new - DecoderV2::new on inputs <= 12 bytes - was a stand-in until unit lib0_v2 proved
+// DecoderV2::new and StringDecoder::new total and exact for ALL inputs (labels v2_new, string_dec_new); DESIGN.md 9.2)
 
-// ---- C10: v2 delete-set clock/len accumulation from an arbitrary accumulator value
 // @harness name=total_v2_ds kind=complete tiers=quick,thorough domain="all accumulator values ds_curr_val x all byte strings of length 0..=12" bound="unwind 22, unwinding assertions on" target="DecoderV2::{read_ds_clock,read_ds_len,reset_ds_cur_val}"
 #[kani::proof]
 #[kani::unwind(22)]
